@@ -75,6 +75,8 @@ impl Visit for Sig {
 }
 
 pub struct Env<'a> {
+    /// the host's shared diagnostics handler, if it has one
+    pub handler: Option<&'a Handler>,
     pub cm: &'a Lrc<SourceMap>,
     pub comments: Option<AnyComments>,
     pub file_name: String,
@@ -123,11 +125,25 @@ pub fn run_file(env: Env<'_>, src: &str, ts: bool, script: bool, opts: Options, 
 
     let diags = Arc::new(Mutex::new(vec![]));
     let fm = env.cm.new_source_file(FileName::Custom(env.file_name.clone()).into(), src.to_string());
-    let handler = Handler::with_emitter(true, false, Box::new(CollectEmitter { out: diags.clone(), file_start: fm.start_pos.0 }));
+    let own_handler;
+    let handler: &Handler = match env.handler {
+        Some(h) => {
+            seams::CTX.with(|c| {
+                if let Some(c) = c.borrow_mut().as_mut() {
+                    c.diag_sink = Some((diags.clone(), fm.start_pos.0));
+                }
+            });
+            h
+        }
+        None => {
+            own_handler = Handler::with_emitter(true, false, Box::new(CollectEmitter { out: diags.clone(), file_start: fm.start_pos.0 }));
+            &own_handler
+        }
+    };
     let comments = env.comments;
     let cm = env.cm;
 
-    let r = HANDLER.set(&handler, || -> Result<(String, String), ParseError> {
+    let r = HANDLER.set(handler, || -> Result<(String, String), ParseError> {
         seams::set_phase(Phase::Parse);
         let syntax = if ts {
             Syntax::Typescript(TsSyntax { tsx: true, ..Default::default() })
